@@ -70,7 +70,7 @@ package disk
 //@   serves C10
 //@   requires wfCache(c) && !muHeld && c.accessLogger != nil && ctx != nil
 //@   requires[C14] nonnil: forall k Int :: (lo(blobs) <= k && k < hi(blobs)) ==> elems(blobs)[k] != 0
-//@   modifies lruState(c.lru), elems(blobs), hitN, hitSize, visited
+//@   modifies lruState(c.lru), elems(blobs), hitN, hitSize, visited, sendN, sentRefs
 //@   ensures[C07] unlocked: !muHeld
 //@   ensures[C10] subset: result1 == nil ==> (arr(result0) == arr(blobs) && offset(result0) == offset(blobs) && len(result0) <= len(blobs))
 //@   ensures[C10] noproxyall: (result1 == nil && c.proxy == nil) ==> visited == old(visited) + len(blobs)
@@ -81,7 +81,7 @@ package disk
 //@   serves C06 C10 C18
 //@   requires wfCache(c) && !muHeld && c.accessLogger != nil && ctx != nil
 //@   requires[C14] nonnil: forall k Int :: (lo(blobs) <= k && k < hi(blobs)) ==> elems(blobs)[k] != 0
-//@   modifies lruState(c.lru), elems(blobs), hitN, hitSize, visited
+//@   modifies lruState(c.lru), elems(blobs), hitN, hitSize, visited, sendN, sentRefs
 //@   ensures[C07] unlocked: !muHeld
 //@   ensures[C10] allvisited: (result == nil) ==> visited == old(visited) + len(blobs)
 //@   ensures[C06] failfastlocal: (result == nil && failFast && c.proxy == nil) ==> (forall k Int :: (lo(blobs) <= k && k < hi(blobs)) ==> elems(blobs)[k] == 0)
@@ -98,6 +98,6 @@ package disk
 //@   loop 1 invariant[C18] oversizeprev: (failFast && c.proxy != nil) ==> (forall k Int :: (lo(blobs) <= k && k < lo(chunk) && elems(blobs)[k] != 0) ==> dSize(elems(blobs)[k]) <= c.maxProxyBlobSize)
 //@   loop 1 invariant[C18] oversizechunk: (failFast && c.proxy != nil) ==> (forall k Int :: (lo(chunk) <= k && k < lo(chunk) + rangeindex + 1 && elems(blobs)[k] != 0) ==> dSize(elems(blobs)[k]) <= c.maxProxyBlobSize)
 //@   loop 1 invariant chunkpos: arr(chunk) == arr(blobs) && lo(chunk) == hi(blobs) - len(remaining) - len(chunk) && lo(blobs) <= lo(chunk) && len(chunk) > 0
-//@   loop 0 modifies lruState(c.lru), elems(blobs), hitN, hitSize, visited
-//@   loop 1 modifies nothing
+//@   loop 0 modifies lruState(c.lru), elems(blobs), hitN, hitSize, visited, sendN, sentRefs
+//@   loop 1 modifies sendN, sentRefs
 //@   call findMissingLocalCAS#* asserts[C10] chunk: arr(arg1) == arr(blobs) && lo(arg1) == hi(blobs) - len(remaining) - len(arg1) && 0 < len(arg1) && len(arg1) <= 20
